@@ -61,6 +61,20 @@ INFO = {
  'C16-c': ('C16', 'update_var_domain returns early when the new domain spans the stored one by its bounds: needs a sparse domain with interior holes merged into an existing domain inside its span (second infd, or directional x == y)', ['C16', 'C17']),
  'C17-c': ('C17', 'DistinctFd2Constraint appends newly bound values unsorted while the duplicate test binary-searches: needs an aliased list element (z == w) and two other elements labelled in descending order; yields spurious answers, so it is C16 (soundness) that observes it', ['C16']),
  'C22-c': ('C22', 'State::take_constraint calls U::take_constraint even when the store did not hold the constraint: needs a constraint that removes itself during run_constraints (subsumed disequality / nested FD propagation)', ['C22']),
+ 'C01-c': ('C01', 'the Compound/Compound arm of unify_rec passes the LTerm wrappers to unify_rec_compound, so the type check compares LTerm with LTerm: needs two compounds of DIFFERENT types with the same arity and unifiable fields', ['C01', 'C20']),
+ 'C04-c': ('C04', 'FiniteDomain::intersect returns self when other contains both ends of self (wrong for a sparse other with interior holes; asymmetric): needs two domains on one variable, the second sparse with a hole inside the first', ['C04', 'C16']),
+ 'C07-c': ('C07', 'Stream::mplus does not swap when the immature stream is depth-first (BindDFS/MPlusDFS/PauseDFS root): needs a bare dfs { diverging } block as the only/last goal of a branch next to a productive sibling', ['C07', 'C09']),
+ 'C11-c': ('C11', 'SMap::walk_star returns a list cell unwalked when none of its top-level elements is a variable: needs a nested list whose inner element holds a bound variable', ['C11', 'C01']),
+ 'C12-c': ('C12', 'Everyg::solve skips repeated collection elements (HashSet): needs a collection with a repeated element and a body that multiplies answers when applied twice', ['C12']),
+ 'C13-c': ('C13', 'the pattern-variable set of an arm is shared by its alternatives (accumulates): needs p1 | p2 where p1 has a name p2 lacks, used in the body, with an outer variable of that name', ['C13']),
+ 'C14-c': ('C14', 'same change as C24-b, found independently (push_and_normalize subsumption test swapped)', ['C02', 'C24']),
+ 'C15-c': ('C15', 'Closure caches its body goal in a OnceCell: needs ONE closure goal value solved twice on one path with fresh variables in its body', ['C15']),
+ 'C18-c': ('C18', 'copy_before computes u - 1 before the emptiness test: needs an interval whose lower bound is isize::MIN and a predicate true at the first value', ['C18']),
+ 'C19-c': ('C19', 'push_and_normalize drops every stored constraint that is not a tree disequality: needs a suspended plusz/timesz in the store when a != is pushed or re-run', ['C19']),
+ 'C20-c': ('C20', 'is_reified_compound uses any instead of all: needs a disequality whose value side is a compound with one hidden variable and one ground/answer field', ['C20', 'C03']),
+ 'C21-c': ('C21', 'derive for tuple-struct compounds compares self with self in PartialEq: needs two tuple-struct compounds of the same type with different fields', ['C21']),
+ 'C23-c': ('C23', 'verify_all_bound looks the domain up under the unwalked operand: needs an FD constraint on x, x == y binding x, both hidden and unbound at reification', ['C23', 'C16']),
+ 'C24-c': ('C24', 'process_extension_diseq skips run_constraints when a binding maps a variable to an unconstrained unbound variable: needs var-to-var aliasing after distinct/member1/rember with nothing ground afterwards', ['C24', 'C02']),
 }
 logs = ''
 for f in glob.glob(os.path.join(ROOT, 'verify_wave*.log')) + glob.glob('/tmp/verify_wave*.log'):
@@ -71,7 +85,7 @@ def results(dirname):
     return out
 blocks = {}
 for f in sorted(set(glob.glob(os.path.join(ROOT, 'verify_wave*.log')) + glob.glob('/tmp/verify_wave*.log'))):
-    rnd = 'c' if 'wave6' in f else ('b' if ('wave4' in f or 'wave5' in f) else 'a')
+    rnd = 'c' if ('wave6' in f or 'wave7' in f) else ('b' if ('wave4' in f or 'wave5' in f) else 'a')
     cur = None
     for line in open(f):
         m = re.match(r'== (C\d\d)', line)
